@@ -277,6 +277,31 @@ theorem C19_initialized_stays (cfg : Cfg) (ps : List ReqPath) (c : Client) (st :
       ((emits cfg ps c st v op).2.hsVal = st.hsVal ∨ (reopens op = true ∧ (emits cfg ps c st v op).2.hsVal = some v)) := by
   cases op <;> simp only [emits, h, reopens] <;> (try split) <;> (try split) <;> (try split) <;> simp_all
 
+/-- **Error answers keep the session.** A request or notification the server answers with an error status (404, 400,
+    401, 403, 500, 503 …) changes nothing the later requests depend on: the state after it — initialized, the issued
+    session id, the listening stream, the handshake value — is the state before it, so every later request of the
+    history is emitted with the same `issued` flag and, through a compliant builder, carries the issued session id
+    (`C19_every_request_good`: `sessionOk`). The failing request itself goes out like a successful one. -/
+theorem C19_error_answers_keep_session (cfg : Cfg) (ps : List ReqPath) (c : Client) (st : St) (v : Nat) :
+    (emits cfg ps c st v .toolsFail).2 = st ∧ (emits cfg ps c st v .notifyFail).2 = st ∧
+      (emits cfg ps c st v .toolsFail).1 = (emits cfg ps c st v .tools).1 ∧
+      (emits cfg ps c st v .notifyFail).1 = (emits cfg ps c st v .notify).1 ∧
+      ∀ rest, trace cfg ps c (emits cfg ps c st v .toolsFail).2 rest = trace cfg ps c st rest := by
+  have h1 : (emits cfg ps c st v .toolsFail).2 = st := by simp only [emits]; split <;> rfl
+  have h2 : (emits cfg ps c st v .notifyFail).2 = st := by
+    simp only [emits]; cases c <;> simp <;> split <;> rfl
+  refine ⟨h1, h2, by simp [emits], by simp [emits], ?_⟩
+  intro rest; rw [h1]
+
+/-- non-vacuity: a 404 in the middle of a Streamable history — the later request, notification, answer and DELETE are
+    still emitted as after a successful `tools/list` (all with an issued session id). -/
+example :
+    let cfg : Cfg := ⟨true, true, false, false, false⟩
+    trace cfg Mcp.Gen.ReqPaths.paths .streamable {} [(.initialize, 1), (.toolsFail, 2), (.tools, 3), (.notifyFail, 4), (.notify, 5), (.roots, 6), (.terminate, 7)] =
+      trace cfg Mcp.Gen.ReqPaths.paths .streamable {} [(.initialize, 1), (.tools, 2), (.tools, 3), (.notify, 4), (.notify, 5), (.roots, 6), (.terminate, 7)] ∧
+    (trace cfg Mcp.Gen.ReqPaths.paths .streamable {} [(.initialize, 1), (.toolsFail, 2), (.tools, 3), (.terminate, 4)]).all
+      (fun o => match o with | some (_, obs, _) => obs.sessionOk | none => false) = true := by decide
+
 /-- A listening stream the server ends — gracefully or by resetting the connection — while the roots provider is
     still working does not take the context of the answer with it: the answer is still emitted, through the same
     builder, and for every configuration it is good (configured URL, static headers, session id, handler, the
